@@ -164,12 +164,6 @@ def analyzeOp (flags : Nat) (qs : List Bytes) (nMiss : Nat) (samples : List Byte
 
 /-! ### `cmd`: the five counting commands -/
 
-/-- `--sort-cols text` (any spelling, no modifier that reverses): the column order `sparkTrim` models -/
-def isPlainText (sort : Bytes) : Bool :=
-  match C13.parseSort C13.lowerK sort with
-  | .ok (n, rev) => C13.lookupMode C13.lowerK n == some .text && !rev
-  | .error _ => false
-
 def cmdAnswer (csvStdout : Bool) (o : CmdOut) : String :=
   if csvStdout then s!"ok {o.exit} {Hex.enc o.csv} -"
   else s!"ok {o.exit} {Hex.enc o.csv} {Hex.enc (joinLines (o.lines.map squash))}"
@@ -192,8 +186,11 @@ def cmdOp (name : String) (flags n : Nat) (atLeast : Int) (ncols : Nat) (sort de
     | .ok s => cmdAnswer csvStdout (barsCmd isortFn (akeys s.items) s k 0)
   | "spark" =>
     if delim.isEmpty then "unmodelled empty-delimiter"
-    else if !(flags / 2 % 2 = 1) && !sortsByValue sort && !isPlainText sort then "unmodelled sorter"
-    else cmdAnswer csvStdout (sparkCmd ncols (flags / 2 % 2 = 1) sort (Table.run delim samples) k 0)
+    else
+      -- `--sort-cols text|numeric|value`, any spelling and modifier: the trim keeps the last `--cols` columns of THAT order
+      match sparkCmdBy ncols (flags / 2 % 2 = 1) sort (Table.run delim samples) k 0 with
+      | none => "unmodelled sorter"
+      | some o => cmdAnswer csvStdout o
   | _ =>
     if delim.isEmpty then "unmodelled empty-delimiter"
     else
@@ -209,11 +206,13 @@ def tblOp (d : Bytes) (ncols : Nat) (samples : List Bytes) (renders : List Nat) 
   match builtSorter C13.lowerK sortCols with
   | none => "fatal 2"
   | some _ =>
-    if !sortsByValue sortCols && !isPlainText sortCols then "unmodelled sorter"
-    else
-      -- the render callback's `if !noTruncate && !helpers.SortsByValue(sortCols)`: a value-ordered sort never trims
+    match pureSortLess sortCols with
+    | none => "unmodelled sorter"
+    | some less =>
+      -- the render callback's `if !noTruncate && !helpers.SortsByValue(sortCols)`: a value-ordered sort never trims;
+      -- otherwise every render keeps the last `--cols` columns of `colSorter = BuildSorter(sortCols)` (`text`, `numeric`, reversed …)
       let t := if sortsByValue sortCols then Table.run d samples
-               else sparkTrim ncols (sparkRun ncols d (sparkScript 0 samples renders))
+               else sparkTrimBy less ncols (sparkRunBy less ncols d (sparkScript 0 samples renders))
       let csv := writeCsv (tableCsvRows isortFn (akeys t.cols) (akeys t.rows) t)
       let mm := t.computeMinMax
       s!"ok {Hex.enc csv} {t.rows.length} {t.cols.length} {t.sum} {mm.1} {mm.2} {t.errors}"
